@@ -676,6 +676,8 @@ def _streaming_check(ctx, kind):
 
 def check_C11(ctx):
     ctx.build(); _hash_source(ctx); ctx.lean(extra_modules=['TJ.Props.C11Gen', 'TJ.Props.C10Gen', 'TJ.Props.StreamGen'])
+    # objects can only influence each other through shared state: the static library must hold no writable data (several hash objects driven from several threads)
+    _symbol_audit(ctx)
     _streaming_check(ctx, 'h')
     if ctx.tier == 'thorough':
         # lengths that do not fit 32 bits (a long soak: about 90 s of hashing per case, both digests computed in parallel)
